@@ -260,7 +260,7 @@ def step (cs : CaseSt) (op obs : String) : CaseSt × R :=
            { cs.m with stopAt := match cs.m.stopAt with | some x => some x | none => some (sortN (before.accepted ++ before.rejected), before.nextId),
                        broke := cs.m.broke || kind == "brk",
                        skippable := if kind == "brk" && !cs.m.broke then inAll else cs.m.skippable })
-      | "obs" | "final" => (idF, fun _ => true, fun _ => cs.m)
+      | "obs" | "final" | "otherq" => (idF, fun _ => true, fun _ => cs.m)   -- otherq: an unrelated queue is created or resized
       | _ => (fun _ => none, fun _ => false, fun _ => cs.m)
     let okBefore := if kind == "new" then [] else cs.cands.filter pre
     let prefixOK := kind == "new" || !okBefore.isEmpty
